@@ -9,6 +9,18 @@
   They hold over every linearly ordered field, for every memory size, every dimension and every
   history (induction; no bound).  Vectors are lists; "dimension n" is a length hypothesis.
 
+  THE PROPERTY THEOREMS for `apply` are `apply_eq_dense_bfgs` (state level) and
+  `reachable_apply_dense` / `reachable_apply_posdef` (every op history from a freshly constructed
+  object).  They carry the invariant `CurvOK`: every stored pair has `⟨y,s⟩ ≠ 0` — exactly the
+  condition under which the dense BFGS inverse Hessian of the history exists.  `run_goodC` proves it
+  along every run whose operations satisfy `OpOK` (dimensions match; a *forced* update has non-zero
+  curvature; `scale_y` factor ≠ 0), for `min_div_fac ≥ 0` (then `update_valid` rejects `⟨y,s⟩ = 0`:
+  `stored_curv_ne_zero`).  The excluded points are covered explicitly:
+  `forced_zero_curvature_breaks`, `scaleY_zero_breaks` (C++: `ρ = 1/0 = inf`, `apply` returns NaN;
+  run on the real code by checks/c09.py).  `apply_eq_dense` / `run_refines` below are the algebraic
+  core over a field, where `1/0 = 0`: on a history with a zero-curvature pair their `H` is *not* a
+  BFGS matrix (none exists) — do not cite them as the property statement.
+
   `apply_eq_dense` needs `RhoOK` (every stored `ρ` is `1/⟨y,s⟩`).  Every operation preserves it,
   including `applyMasked` (`applyMasked_rhoOK`) — for the *repaired* `apply_masked_impl`
   (fixes/C09-apply_masked-stored-rho.diff; the shipped code overwrote the stored `ρ`, DESIGN §7-I,
@@ -251,8 +263,12 @@ theorem H_snoc (γ0 : α) (hs : List (Vec α × Vec α)) (s y q : Vec α) :
                 - 1 / dot y s * dot y (H γ0 hs (vsub q (smul (1 / dot y s * dot s q) y)))) s) := by
   simp [H, Hrev]
 
-/-- The two loops of `apply` over the ring compute the dense BFGS inverse Hessian of the
-    abstract history, with the initial scaling `applyGamma` (see `applyGamma_curvature`). -/
+/-- Algebraic core (LEMMA — the property theorem is `apply_eq_dense_bfgs`): the two loops of `apply`
+    over the ring compute the operator `H` of the abstract history, with the initial scaling
+    `applyGamma` (see `applyGamma_curvature`).  `H` is the dense BFGS inverse Hessian when every
+    stored `⟨y,s⟩ ≠ 0` (`CurvOK`); for a stored pair with `⟨y,s⟩ = 0` (only a forced update or
+    `scale_y(0)` can produce one) this identity holds through the field convention `1/0 = 0` while
+    the C++ computes with `ρ = inf` and returns NaN. -/
 theorem apply_eq_dense (p : Params α) (st : State α) (hI : Inv st) (hρ : RhoOK st) (q : Vec α)
     (γ : α) (hne : st.isEmpty = false) :
     (apply p st q γ).2.1 = H (applyGamma p st γ) st.abs q ∧ (apply p st q γ).2.2 = true := by
@@ -510,7 +526,11 @@ theorem maskedGamma_none_valid (p : Params α) (st : State α) (q : Vec α) (γ 
   mGamma_no_valid _ _ _ _ _ fun c hc => h c (List.mem_reverse.mp hc)
 
 /-- Otherwise (curvature policy or `γ < 0`) it is `⟨s,y⟩_J/⟨y,y⟩_J` of the newest pair valid on `J`
-    — the documented initial scaling on the subset — provided that ratio is non-negative. -/
+    — the documented initial scaling on the subset — PROVIDED THAT RATIO IS NON-NEGATIVE (`hr`).
+    `hr` is discharged for `force_pos_def`, `min_div_fac ≥ 0` in `maskedGamma_newest_valid_pd`;
+    without `force_pos_def` the statement is false without it: `maskedGamma_first_nonneg` says what
+    the code computes then (known-findings
+    `C09-apply_masked-negative-curvature-scaling-from-older-pair`). -/
 theorem maskedGamma_newest_valid (p : Params α) (st : State α) (q : Vec α) (γ : α) (J : List Nat)
     (older newer : List (Slot α)) (c : Slot α) (hsplit : st.pairs = older ++ c :: newer)
     (hγ : (if p.curvature then (-1 : α) else γ) < 0)
@@ -617,7 +637,9 @@ theorem step_refines (p : Params α) (hm : 1 ≤ p.memory) (st : State α) (hG :
 
 /-- **Refinement for all interleavings** of update / forced update / apply / apply_masked / reset /
     resize / scale_y, of any length, for any `memory ≥ 1`: the ring state always abstracts to the history
-    the dense model has, and stays `Good` (so `apply_eq_dense` applies at every point). -/
+    the dense model has, and stays `Good` (so `apply_eq_dense` applies at every point).  This part
+    needs no side condition (ring bookkeeping only); that the history's dense BFGS matrix *exists*
+    is `run_goodC` (under `RunOK`). -/
 theorem run_refines (p : Params α) (hm : 1 ≤ p.memory) (ops : List (Op α)) (st : State α)
     (hG : Good p st) :
     Good p (ops.foldl (step p) st) ∧
@@ -713,5 +735,686 @@ example : lbfgsSucc 3 2 = 0 ∧ lbfgsPred 3 0 = 2 ∧ lbfgsForeachFwd 3 1 true =
 example : lastN 2 [1, 2, 3, 4] = [3, 4] := by decide
 
 end examples
+
+
+/-! ## the non-zero-curvature invariant; dense-matrix properties of every reachable state (audit F7) -/
+
+/-- A property of every stored slot. -/
+def AllPairs (P : Slot α → Prop) (st : State α) : Prop := ∀ c ∈ st.pairs, P c
+
+theorem mem_pairs_updateSy (p : Params α) (st : State α) (hI : Inv st) (s y : Vec α) (pTp : α)
+    (forced : Bool) (c : Slot α) (hc : c ∈ (updateSy p st s y pTp forced).1.pairs) :
+    c ∈ st.pairs ∨ ((updateSy p st s y pTp forced).2 = true ∧ c = ⟨s, y, 1 / dot y s⟩) := by
+  simp only [updateSy] at hc ⊢
+  split_ifs at hc ⊢ with h
+  · exact Or.inl hc
+  · have hp := pairs_push st hI ⟨s, y, 1 / dot y s⟩
+    simp only at hp
+    rw [hp] at hc
+    rcases List.mem_append.mp (List.mem_of_mem_drop hc) with h1 | h1
+    · exact Or.inl h1
+    · exact Or.inr ⟨rfl, by simpa using h1⟩
+
+theorem scaleY_pairs (st : State α) (hI : Inv st) (f : α) :
+    (scaleY st f).pairs = st.pairs.map fun c => ⟨c.s, smul f c.y, c.rho * (1 / f)⟩ := by
+  have hi := hI.idx_lt
+  simp only [scaleY, State.pairs, State.history]
+  rcases Bool.eq_false_or_eq_true st.full with hf | hf
+  · simp only [hf, if_true, List.take_length, List.drop_length, List.append_nil]
+    simp [List.map_drop, List.map_take]
+  · simp only [hf, Bool.false_eq_true, if_false]
+    rw [List.take_append_of_le_length (by simp; omega), List.take_of_length_le (by simp)]
+
+theorem allPairs_updateSy (P : Slot α → Prop) (p : Params α) (st : State α) (hI : Inv st)
+    (s y : Vec α) (pTp : α) (forced : Bool) (h : AllPairs P st)
+    (hnew : (updateSy p st s y pTp forced).2 = true → P ⟨s, y, 1 / dot y s⟩) :
+    AllPairs P (updateSy p st s y pTp forced).1 := by
+  intro c hc
+  rcases mem_pairs_updateSy p st hI s y pTp forced c hc with h1 | ⟨h1, rfl⟩
+  · exact h c h1
+  · exact hnew h1
+
+theorem allPairs_apply (P : Slot α → Prop) (p : Params α) (st : State α) (q : Vec α) (γ : α)
+    (h : AllPairs P st) : AllPairs P (apply p st q γ).1 := by
+  unfold C09.apply; split_ifs <;> exact h
+
+theorem allPairs_applyMasked (P : Slot α → Prop) (p : Params α) (st : State α) (q : Vec α) (γ : α)
+    (J : List Nat) (h : AllPairs P st) : AllPairs P (maskedState st (applyMasked p st q γ J)) := by
+  obtain ⟨al, h', _⟩ := applyMasked_state p st q γ J
+  rw [h']; exact h
+
+theorem allPairs_reset (P : Slot α → Prop) (st : State α) : AllPairs P (reset st) := by
+  intro c hc; simp [reset, State.pairs] at hc
+
+theorem allPairs_scaleY (P : Slot α → Prop) (st : State α) (hI : Inv st) (f : α) (h : AllPairs P st)
+    (hsc : ∀ c, P c → P ⟨c.s, smul f c.y, c.rho * (1 / f)⟩) : AllPairs P (scaleY st f) := by
+  intro c hc
+  rw [scaleY_pairs st hI, List.mem_map] at hc
+  obtain ⟨c0, hc0, rfl⟩ := hc
+  exact hsc c0 (h c0 hc0)
+
+/-- Every stored pair has non-zero curvature `⟨y,s⟩`: the condition under which the dense BFGS
+    inverse Hessian of the history exists. -/
+def CurvOK (st : State α) : Prop := AllPairs (fun c => dot c.y c.s ≠ 0) st
+/-- Every stored pair has positive curvature. -/
+def PosOK (st : State α) : Prop := AllPairs (fun c => 0 < dot c.y c.s) st
+/-- Every stored vector has the dimension the object was resized to. -/
+def DimOK (st : State α) : Prop := AllPairs (fun c => c.s.length = st.n ∧ c.y.length = st.n) st
+
+def HistCurvOK (h : List (Vec α × Vec α)) : Prop := ∀ sy ∈ h, dot sy.2 sy.1 ≠ 0
+
+theorem curvOK_abs (st : State α) : CurvOK st ↔ HistCurvOK st.abs := by
+  simp only [CurvOK, AllPairs, HistCurvOK, State.abs, List.mem_map]
+  constructor
+  · rintro h sy ⟨c, hc, rfl⟩; exact h c hc
+  · intro h c hc; exact h (c.s, c.y) ⟨c, hc, rfl⟩
+
+theorem posOK_abs (st : State α) : PosOK st ↔ ∀ sy ∈ st.abs, 0 < dot sy.2 sy.1 := by
+  simp only [PosOK, AllPairs, State.abs, List.mem_map]
+  constructor
+  · rintro h sy ⟨c, hc, rfl⟩; exact h c hc
+  · intro h c hc; exact h (c.s, c.y) ⟨c, hc, rfl⟩
+
+theorem dimOK_abs (st : State α) : DimOK st ↔ WF st.n st.abs := by
+  simp only [DimOK, AllPairs, WF, State.abs, List.mem_map]
+  constructor
+  · rintro h sy ⟨c, hc, rfl⟩; exact h c hc
+  · intro h c hc; exact h (c.s, c.y) ⟨c, hc, rfl⟩
+
+theorem PosOK.curvOK {st : State α} (h : PosOK st) : CurvOK st := fun c hc => (h c hc).ne'
+
+
+/-! ### side conditions of an operation; legal runs -/
+
+/-- The `s`, `y`, `pᵀp` that `update(xₖ, xₙₑₓₜ, pₖ, pₙₑₓₜ, sign, ·)` hands to `update_sy_impl`. -/
+def updS (xk xn : Vec α) : Vec α := vsub xn xk
+def updY (pk pn : Vec α) (positive : Bool) : Vec α := if positive then vsub pn pk else vsub pk pn
+
+/-- Side conditions of one operation in state `st` (the caller's obligations):
+    vectors have the dimension the object was resized to; a **forced** update — which bypasses the
+    acceptance test — must not have zero curvature; `scale_y` is not called with factor 0.
+    (At the excluded points the C++ stores `ρ = 1/0 = ±inf` and every later `apply` returns NaN;
+    the dense BFGS matrix of such a history does not exist.  `checks/c09.py` runs these points on
+    the real code on every run.) -/
+def OpOK (st : State α) : Op α → Prop
+  | .updateSy s y _ forced => s.length = st.n ∧ y.length = st.n ∧ (forced = true → dot y s ≠ 0)
+  | .update xk xn pk pn pos forced =>
+      xk.length = st.n ∧ xn.length = st.n ∧ pk.length = st.n ∧ pn.length = st.n ∧
+      (forced = true → dot (updY pk pn pos) (updS xk xn) ≠ 0)
+  | .scaleY f => f ≠ 0
+  | _ => True
+
+/-- The same with "positive" in place of "non-zero" (for positive definiteness). -/
+def OpPos (st : State α) : Op α → Prop
+  | .updateSy s y _ forced => s.length = st.n ∧ y.length = st.n ∧ (forced = true → 0 < dot y s)
+  | .update xk xn pk pn pos forced =>
+      xk.length = st.n ∧ xn.length = st.n ∧ pk.length = st.n ∧ pn.length = st.n ∧
+      (forced = true → 0 < dot (updY pk pn pos) (updS xk xn))
+  | .scaleY f => 0 < f
+  | _ => True
+
+theorem OpPos.opOK {st : State α} {op : Op α} (h : OpPos st op) : OpOK st op := by
+  cases op <;> simp only [OpPos, OpOK] at h ⊢
+  · exact ⟨h.1, h.2.1, fun hf => (h.2.2 hf).ne'⟩
+  · exact ⟨h.1, h.2.1, h.2.2.1, h.2.2.2.1, fun hf => (h.2.2.2.2 hf).ne'⟩
+  · exact h.ne'
+
+/-- A run all of whose operations satisfy their side condition in the state they are applied to. -/
+def RunOK (p : Params α) : State α → List (Op α) → Prop
+  | _, [] => True
+  | st, op :: ops => OpOK st op ∧ RunOK p (step p st op) ops
+
+def RunPos (p : Params α) : State α → List (Op α) → Prop
+  | _, [] => True
+  | st, op :: ops => OpPos st op ∧ RunPos p (step p st op) ops
+
+theorem RunPos.runOK {p : Params α} {st : State α} {ops : List (Op α)} (h : RunPos p st ops) :
+    RunOK p st ops := by
+  induction ops generalizing st with
+  | nil => trivial
+  | cons op ops ih => exact ⟨h.1.opOK, ih h.2⟩
+
+/-- `Good` plus: every stored curvature is non-zero, every stored vector has dimension `st.n`. -/
+def GoodC (p : Params α) (st : State α) : Prop := Good p st ∧ CurvOK st ∧ DimOK st
+
+theorem length_vsub_eq (a b : Vec α) (n : Nat) (ha : a.length = n) (hb : b.length = n) :
+    (vsub a b).length = n := by rw [length_vsub a b (by rw [ha, hb]), ha]
+
+theorem updateSy_n (p : Params α) (st : State α) (s y : Vec α) (pTp : α) (forced : Bool) :
+    (updateSy p st s y pTp forced).1.n = st.n := by
+  simp only [updateSy]; split_ifs <;> rfl
+
+theorem scaleY_n (st : State α) (f : α) : (scaleY st f).n = st.n := rfl
+theorem reset_n (st : State α) : (reset st).n = st.n := rfl
+theorem apply_n (p : Params α) (st : State α) (q : Vec α) (γ : α) : (apply p st q γ).1.n = st.n := by
+  unfold C09.apply; split_ifs <;> rfl
+theorem applyMasked_n (p : Params α) (st : State α) (q : Vec α) (γ : α) (J : List Nat) :
+    (maskedState st (applyMasked p st q γ J)).n = st.n := by
+  obtain ⟨al, h', _⟩ := applyMasked_state p st q γ J
+  rw [h']
+
+/-- An un-forced stored pair has non-zero curvature when `min_div_fac ≥ 0`
+    (`update_valid` rejects `|⟨y,s⟩| ≤ min_div_fac·‖s‖²`, in particular `⟨y,s⟩ = 0`). -/
+theorem stored_curv_ne_zero (p : Params α) (hmd : 0 ≤ p.minDivFac) (st : State α) (s y : Vec α)
+    (pTp : α) (forced : Bool) (hst : (updateSy p st s y pTp forced).2 = true)
+    (hf : forced = true → dot y s ≠ 0) : dot y s ≠ 0 := by
+  rcases (stored_iff p st s y pTp forced).mp hst with h | h
+  · exact hf h
+  · exact updateValid_ne_zero p _ _ _ h hmd (by rw [sqNorm_eq_dot]; exact dot_self_nonneg s)
+
+/-- … and positive curvature when additionally `force_pos_def` is set. -/
+theorem stored_curv_pos (p : Params α) (hfp : p.forcePosDef = true) (hmd : 0 ≤ p.minDivFac)
+    (st : State α) (s y : Vec α) (pTp : α) (forced : Bool)
+    (hst : (updateSy p st s y pTp forced).2 = true) (hf : forced = true → 0 < dot y s) :
+    0 < dot y s := by
+  rcases (stored_iff p st s y pTp forced).mp hst with h | h
+  · exact hf h
+  · exact updateValid_pos p _ _ _ h hfp hmd (by rw [sqNorm_eq_dot]; exact dot_self_nonneg s)
+
+theorem updateSy_goodC (p : Params α) (hmd : 0 ≤ p.minDivFac) (st : State α) (hG : GoodC p st)
+    (s y : Vec α) (pTp : α) (forced : Bool)
+    (hop : s.length = st.n ∧ y.length = st.n ∧ (forced = true → dot y s ≠ 0)) :
+    GoodC p (updateSy p st s y pTp forced).1 := by
+  obtain ⟨hg, hc, hd⟩ := hG
+  refine ⟨(updateSy_step p st hg s y pTp forced).1, ?_, ?_⟩
+  · exact allPairs_updateSy _ p st hg.1 s y pTp forced hc
+      (fun hst => stored_curv_ne_zero p hmd st s y pTp forced hst hop.2.2)
+  · unfold DimOK; rw [updateSy_n]
+    exact allPairs_updateSy _ p st hg.1 s y pTp forced hd (fun _ => ⟨hop.1, hop.2.1⟩)
+
+/-- Every operation whose side condition holds keeps `GoodC` (for `memory ≥ 1`, `min_div_fac ≥ 0`). -/
+theorem step_goodC (p : Params α) (hm : 1 ≤ p.memory) (hmd : 0 ≤ p.minDivFac) (st : State α)
+    (hG : GoodC p st) (op : Op α) (hop : OpOK st op) : GoodC p (step p st op) := by
+  have hgood := (step_refines p hm st hG.1 op).1
+  obtain ⟨hg, hc, hd⟩ := hG
+  cases op with
+  | updateSy s y pTp forced => exact updateSy_goodC p hmd st ⟨hg, hc, hd⟩ s y pTp forced hop
+  | update xk xn pk pn pos forced =>
+    simp only [step, update_eq_updateSy]
+    obtain ⟨h1, h2, h3, h4, h5⟩ := hop
+    refine updateSy_goodC p hmd st ⟨hg, hc, hd⟩ _ _ _ forced ⟨length_vsub_eq _ _ _ h2 h1, ?_, h5⟩
+    split_ifs
+    · exact length_vsub_eq _ _ _ h4 h3
+    · exact length_vsub_eq _ _ _ h3 h4
+  | apply q γ =>
+    refine ⟨hgood, allPairs_apply _ p st q γ hc, ?_⟩
+    unfold DimOK; simp only [step]; rw [apply_n]; exact allPairs_apply _ p st q γ hd
+  | applyMasked q γ J =>
+    refine ⟨hgood, allPairs_applyMasked _ p st q γ J hc, ?_⟩
+    unfold DimOK; simp only [step]; rw [applyMasked_n]; exact allPairs_applyMasked _ p st q γ J hd
+  | reset => exact ⟨hgood, allPairs_reset _ st, allPairs_reset _ st⟩
+  | resize n =>
+    refine ⟨hgood, ?_, ?_⟩ <;>
+    · obtain ⟨st', h1, h2, h3, h4, _⟩ := (resize_spec p n).2 hm
+      simp only [step, h1, Option.getD_some]
+      have : st'.pairs = [] := by simpa [State.abs] using h3
+      intro c hc; simp [this] at hc
+  | scaleY f =>
+    have hf : f ≠ 0 := hop
+    refine ⟨hgood, allPairs_scaleY _ st hg.1 f hc ?_, ?_⟩
+    · intro c hc0
+      show dot (smul f c.y) c.s ≠ 0
+      rw [dot_smul_left]; exact mul_ne_zero hf hc0
+    · unfold DimOK; simp only [step, scaleY_n]
+      exact allPairs_scaleY _ st hg.1 f hd (fun c hc0 => ⟨hc0.1, by simpa using hc0.2⟩)
+
+/-- **The non-zero-curvature invariant holds along every legal run** (any interleaving, any length,
+    any `memory ≥ 1`), together with the refinement of `run_refines`. -/
+theorem run_goodC (p : Params α) (hm : 1 ≤ p.memory) (hmd : 0 ≤ p.minDivFac) (ops : List (Op α))
+    (st : State α) (hG : GoodC p st) (hrun : RunOK p st ops) :
+    GoodC p (ops.foldl (step p) st) ∧
+    (ops.foldl (step p) st).abs = ops.foldl (specStep p) st.abs := by
+  refine ⟨?_, (run_refines p hm ops st hG.1).2⟩
+  induction ops generalizing st with
+  | nil => exact hG
+  | cons op ops ih => exact ih _ (step_goodC p hm hmd st hG op hrun.1) hrun.2
+
+/-- The freshly constructed / resized object satisfies `GoodC`. -/
+theorem resize_goodC (p : Params α) (n : Nat) (st : State α) (h : resize p n = some st) :
+    GoodC p st ∧ st.abs = [] ∧ st.n = n := by
+  have hm : 1 ≤ p.memory := by
+    by_contra hlt
+    have := (resize_spec p n).1 (by omega)
+    rw [this] at h; exact absurd h (by simp)
+  obtain ⟨st', h1, h2, h3, h4, h5⟩ := (resize_spec p n).2 hm
+  rw [h] at h1; cases h1
+  have hp : st.pairs = [] := by simpa [State.abs] using h3
+  refine ⟨⟨⟨h2, h4, ?_⟩, ?_, ?_⟩, h3, h5⟩ <;> (intro c hc; simp [hp] at hc)
+
+/-! ### the dense operator of a reachable state: it exists, and is symmetric / secant / positive definite -/
+
+theorem abs_snoc_of_nonempty (st : State α) (hI : Inv st) (hne : st.isEmpty = false) :
+    ∃ older s y, st.abs = older ++ [(s, y)] := by
+  have h : st.abs ≠ [] := by
+    intro h0
+    have := (isEmpty_iff st hI).mpr h0
+    rw [hne] at this; exact absurd this (by simp)
+  refine ⟨st.abs.dropLast, (st.abs.getLast h).1, (st.abs.getLast h).2, ?_⟩
+  exact (List.dropLast_append_getLast h).symm
+
+/-- **`apply` = dense BFGS inverse Hessian, for a state satisfying the invariant** (audit F7: the
+    guarded form of `apply_eq_dense`).  Under `GoodC` every stored curvature `⟨y,s⟩` is non-zero, so
+    every `ρ = 1/⟨y,s⟩` in `H` is a genuine reciprocal (`ρ·⟨y,s⟩ = 1`) and `H γ₀ st.abs` *is* the
+    BFGS matrix `(I−ρsyᵀ)H(I−ρysᵀ)+ρssᵀ` of the stored pairs — no use of the field convention
+    `1/0 = 0`.  Moreover that matrix is symmetric and satisfies the secant equation for the newest
+    stored pair. -/
+theorem apply_eq_dense_bfgs (p : Params α) (st : State α) (hG : GoodC p st) (q : Vec α) (γ : α)
+    (hne : st.isEmpty = false) :
+    (apply p st q γ).2.1 = H (applyGamma p st γ) st.abs q ∧ (apply p st q γ).2.2 = true ∧
+    HistCurvOK st.abs ∧ WF st.n st.abs ∧
+    (∀ c ∈ st.pairs, c.rho * dot c.y c.s = 1) ∧
+    (∀ γ0 u v, u.length = st.n → v.length = st.n →
+      dot u (H γ0 st.abs v) = dot (H γ0 st.abs u) v) ∧
+    (∃ older s y, st.abs = older ++ [(s, y)] ∧ dot y s ≠ 0 ∧ ∀ γ0, H γ0 st.abs y = s) := by
+  obtain ⟨⟨hI, hm, hρ⟩, hc, hd⟩ := hG
+  have hcA := (curvOK_abs st).mp hc
+  have hdA := (dimOK_abs st).mp hd
+  obtain ⟨h1, h2⟩ := apply_eq_dense p st hI hρ q γ hne
+  refine ⟨h1, h2, hcA, hdA, ?_, ?_, ?_⟩
+  · intro c hcm
+    rw [hρ c hcm]; exact one_div_mul_cancel (hc c hcm)
+  · intro γ0 u v hu hv; exact H_symm γ0 st.abs hdA u v hu hv
+  · obtain ⟨older, s, y, he⟩ := abs_snoc_of_nonempty st hI hne
+    have hys : dot y s ≠ 0 := hcA (s, y) (by rw [he]; simp)
+    refine ⟨older, s, y, he, hys, fun γ0 => ?_⟩
+    rw [he]; exact H_secant γ0 older s y (he ▸ hdA) hys
+
+/-- `sᵀy/yᵀy > 0` for a pair of positive curvature. -/
+theorem ratio_pos (s y : Vec α) (h : 0 < dot y s) : 0 < dot y s / dot y y := by
+  apply div_pos h
+  apply dot_self_pos
+  intro hz
+  rw [hz, dot_zeros_left] at h
+  exact lt_irrefl _ h
+
+/-- With positive stored curvatures the initial scaling `apply` uses is positive (curvature policy,
+    a negative `γ`, or a positive external `γ`). -/
+theorem applyGamma_pos (p : Params α) (st : State α) (hG : GoodC p st) (hP : PosOK st) (γ : α)
+    (hne : st.isEmpty = false) (hγ : p.curvature = true ∨ γ ≠ 0) : 0 < applyGamma p st γ := by
+  obtain ⟨sy, hl, he⟩ := applyGamma_curvature p st hG.1.1 hG.1.2.2 γ hne
+  have hpos : 0 < dot sy.2 sy.1 := (posOK_abs st).mp hP sy (List.mem_of_getLast? hl)
+  rw [he]
+  split_ifs with hc
+  · exact ratio_pos _ _ hpos
+  · rcases hγ with h | h
+    · exact absurd (Or.inl h) hc
+    · rcases lt_or_gt_of_ne h with h' | h'
+      · exact absurd (Or.inr h') hc
+      · exact h'
+
+/-- **Positive definite when positive curvature is enforced**: in a state all of whose stored
+    pairs have positive curvature, `⟨q, apply(q)⟩ > 0` for every `q ≠ 0`. -/
+theorem apply_posdef (p : Params α) (st : State α) (hG : GoodC p st) (hP : PosOK st) (q : Vec α)
+    (γ : α) (hne : st.isEmpty = false) (hγ : p.curvature = true ∨ γ ≠ 0) (hq : q.length = st.n)
+    (hq0 : q ≠ List.replicate st.n 0) : 0 < dot q (apply p st q γ).2.1 := by
+  rw [(apply_eq_dense_bfgs p st hG q γ hne).1]
+  exact H_posdef _ (applyGamma_pos p st hG hP γ hne hγ) st.abs ((dimOK_abs st).mp hG.2.2)
+    ((posOK_abs st).mp hP) q hq hq0
+
+theorem updateSy_posOK (p : Params α) (hfp : p.forcePosDef = true) (hmd : 0 ≤ p.minDivFac)
+    (st : State α) (hI : Inv st) (hP : PosOK st) (s y : Vec α) (pTp : α) (forced : Bool)
+    (hop : forced = true → 0 < dot y s) : PosOK (updateSy p st s y pTp forced).1 :=
+  allPairs_updateSy _ p st hI s y pTp forced hP
+    (fun hst => stored_curv_pos p hfp hmd st s y pTp forced hst hop)
+
+/-- Every operation keeps "all stored curvatures positive" when `force_pos_def` is set
+    (`min_div_fac ≥ 0`): the acceptance test enforces it for un-forced updates. -/
+theorem step_posOK (p : Params α) (hfp : p.forcePosDef = true) (hm : 1 ≤ p.memory)
+    (hmd : 0 ≤ p.minDivFac) (st : State α) (hI : Inv st) (hP : PosOK st) (op : Op α)
+    (hop : OpPos st op) : PosOK (step p st op) := by
+  cases op with
+  | updateSy s y pTp forced => exact updateSy_posOK p hfp hmd st hI hP s y pTp forced hop.2.2
+  | update xk xn pk pn pos forced =>
+    simp only [step, update_eq_updateSy]
+    exact updateSy_posOK p hfp hmd st hI hP _ _ _ forced hop.2.2.2.2
+  | apply q γ => exact allPairs_apply _ p st q γ hP
+  | applyMasked q γ J => exact allPairs_applyMasked _ p st q γ J hP
+  | reset => exact allPairs_reset _ st
+  | resize n =>
+    obtain ⟨st', h1, h2, h3, h4, _⟩ := (resize_spec p n).2 hm
+    simp only [step, h1, Option.getD_some]
+    have : st'.pairs = [] := by simpa [State.abs] using h3
+    intro c hc; simp [this] at hc
+  | scaleY f =>
+    have hf : 0 < f := hop
+    refine allPairs_scaleY _ st hI f hP ?_
+    intro c hc0
+    show 0 < dot (smul f c.y) c.s
+    rw [dot_smul_left]; exact mul_pos hf hc0
+
+theorem run_posOK (p : Params α) (hfp : p.forcePosDef = true) (hm : 1 ≤ p.memory)
+    (hmd : 0 ≤ p.minDivFac) (ops : List (Op α)) (st : State α) (hG : GoodC p st) (hP : PosOK st)
+    (hrun : RunPos p st ops) : PosOK (ops.foldl (step p) st) := by
+  induction ops generalizing st with
+  | nil => exact hP
+  | cons op ops ih =>
+    exact ih _ (step_goodC p hm hmd st hG op hrun.1.opOK)
+      (step_posOK p hfp hm hmd st hG.1.1 hP op hrun.1) hrun.2
+
+/-- **For every op history** (any interleaving of update / forced update / apply / apply_masked /
+    reset / resize / scale_y from a freshly constructed object, `memory ≥ 1`, `min_div_fac ≥ 0`, the
+    side conditions `RunOK`): whenever the reached state is non-empty, `apply` multiplies by the dense
+    BFGS inverse Hessian of the history the dense model has (`specStep`), all of whose curvatures
+    are non-zero; that matrix is symmetric and maps the newest stored `y` to the newest stored `s`. -/
+theorem reachable_apply_dense (p : Params α) (hmd : 0 ≤ p.minDivFac) (n : Nat) (st0 : State α)
+    (h0 : resize p n = some st0) (ops : List (Op α)) (hrun : RunOK p st0 ops) (q : Vec α) (γ : α)
+    (hne : (ops.foldl (step p) st0).isEmpty = false) :
+    (ops.foldl (step p) st0).abs = ops.foldl (specStep p) [] ∧
+    HistCurvOK (ops.foldl (specStep p) []) ∧
+    (apply p (ops.foldl (step p) st0) q γ).2.1
+      = H (applyGamma p (ops.foldl (step p) st0) γ) (ops.foldl (specStep p) []) q ∧
+    (apply p (ops.foldl (step p) st0) q γ).2.2 = true ∧
+    (∀ γ0 u v, u.length = (ops.foldl (step p) st0).n → v.length = (ops.foldl (step p) st0).n →
+      dot u (H γ0 (ops.foldl (specStep p) []) v) = dot (H γ0 (ops.foldl (specStep p) []) u) v) ∧
+    (∃ older s y, ops.foldl (specStep p) [] = older ++ [(s, y)] ∧ dot y s ≠ 0 ∧
+      ∀ γ0, H γ0 (ops.foldl (specStep p) []) y = s) := by
+  have hm : 1 ≤ p.memory := by
+    by_contra hlt
+    have := (resize_spec p n).1 (by omega)
+    rw [this] at h0; exact absurd h0 (by simp)
+  obtain ⟨hG0, ha0, _⟩ := resize_goodC p n st0 h0
+  obtain ⟨hG, habs⟩ := run_goodC p hm hmd ops st0 hG0 hrun
+  rw [ha0] at habs
+  have := apply_eq_dense_bfgs p _ hG q γ hne
+  rw [habs] at this
+  exact ⟨habs, this.2.2.1, this.1, this.2.1, this.2.2.2.2.2.1, this.2.2.2.2.2.2⟩
+
+/-- **… and it is positive definite when positive curvature is enforced** (`force_pos_def`; forced
+    updates and `scale_y` factors positive, `RunPos`): `⟨q, apply(q)⟩ > 0` for every `q ≠ 0`. -/
+theorem reachable_apply_posdef (p : Params α) (hfp : p.forcePosDef = true) (hmd : 0 ≤ p.minDivFac)
+    (n : Nat) (st0 : State α) (h0 : resize p n = some st0) (ops : List (Op α))
+    (hrun : RunPos p st0 ops) (q : Vec α) (γ : α)
+    (hne : (ops.foldl (step p) st0).isEmpty = false) (hγ : p.curvature = true ∨ γ ≠ 0)
+    (hq : q.length = (ops.foldl (step p) st0).n)
+    (hq0 : q ≠ List.replicate (ops.foldl (step p) st0).n 0) :
+    (∀ sy ∈ ops.foldl (specStep p) [], 0 < dot sy.2 sy.1) ∧
+    0 < dot q (apply p (ops.foldl (step p) st0) q γ).2.1 := by
+  have hm : 1 ≤ p.memory := by
+    by_contra hlt
+    have := (resize_spec p n).1 (by omega)
+    rw [this] at h0; exact absurd h0 (by simp)
+  obtain ⟨hG0, ha0, _⟩ := resize_goodC p n st0 h0
+  have hP0 : PosOK st0 := by
+    have hp : st0.pairs = [] := by simpa [State.abs] using ha0
+    intro c hc; simp [hp] at hc
+  obtain ⟨hG, habs⟩ := run_goodC p hm hmd ops st0 hG0 hrun.runOK
+  have hP := run_posOK p hfp hm hmd ops st0 hG0 hP0 hrun
+  rw [ha0] at habs
+  refine ⟨?_, apply_posdef p _ hG hP q γ hne hγ hq hq0⟩
+  rw [← habs]; exact (posOK_abs _).mp hP
+
+/-! ### the excluded points (covered explicitly) -/
+
+/-- A **forced** update with zero curvature is stored (that is what `forced` means) and breaks the
+    invariant: afterwards the history contains a pair for which no BFGS matrix exists.  The C++
+    stores `ρ = 1/0 = +inf` there and `apply` returns NaN until the pair is evicted or the object
+    is reset (run on the real code by `checks/c09.py`; the only in-tree caller of forced updates,
+    `PANOCOCPSolver`, uses `apply_masked` exclusively, which re-tests every pair on `J` and skips
+    it — `applyMasked_eq_restricted`, `restrictHist_curv`). -/
+theorem forced_zero_curvature_breaks (p : Params α) (st : State α) (hG : Good p st) (s y : Vec α)
+    (pTp : α) (h0 : dot y s = 0) :
+    (updateSy p st s y pTp true).2 = true ∧ ¬ CurvOK (updateSy p st s y pTp true).1 := by
+  have hst : (updateSy p st s y pTp true).2 = true := (stored_iff p st s y pTp true).mpr (Or.inl rfl)
+  refine ⟨hst, fun hc => ?_⟩
+  have habs := updateSy_abs p st hG.1 s y pTp true
+  rw [if_pos hst] at habs
+  have hmem : (s, y) ∈ (updateSy p st s y pTp true).1.abs := by
+    rw [habs, lastN]
+    have hpos := hG.1.pos
+    have hle : (st.abs ++ [(s, y)]).length - st.slots.length ≤ st.abs.length := by
+      simp only [List.length_append, List.length_cons, List.length_nil]; omega
+    rw [List.drop_append_of_le_length hle]
+    simp
+  exact (curvOK_abs _).mp hc (s, y) hmem h0
+
+/-- `scale_y(0)` on a non-empty history likewise leaves only zero-curvature pairs (`y = 0`,
+    C++: `ρ *= 1/0`).  The only in-tree caller passes `γₖ/old_γₖ`, a ratio of positive step sizes. -/
+theorem scaleY_zero_breaks (st : State α) (hI : Inv st) (hne : st.isEmpty = false) :
+    ¬ CurvOK (scaleY st 0) := by
+  intro hc
+  obtain ⟨older, s, y, he⟩ := abs_snoc_of_nonempty st hI hne
+  have h1 := scaleY_abs st hI (0 : α)
+  have hmem : (s, smul 0 y) ∈ (scaleY st 0).abs := by
+    rw [h1, he]; simp
+  have := (curvOK_abs _).mp hc _ hmem
+  apply this
+  show dot (smul 0 y) s = 0
+  rw [dot_smul_left, zero_mul]
+
+/-! ### the masked variant never meets a zero curvature (for `min_div_fac ≥ 0`) -/
+
+/-- The pairs `apply_masked` uses (those valid on `J`, restricted to `J`) all have non-zero
+    curvature when `min_div_fac ≥ 0` — also when the stored history contains forced pairs of zero
+    curvature, which the `J`-wise acceptance test skips.  So the dense operator on the right-hand
+    side of `applyMasked_eq_restricted` is a genuine BFGS matrix (no `1/0 = 0`).  With
+    `force_pos_def` the curvatures are positive. -/
+theorem restrictHist_curv (p : Params α) (hmd : 0 ≤ p.minDivFac) (fJ : Bool) (J : List Nat)
+    (hist : List (Vec α × Vec α)) :
+    HistCurvOK (restrictHist p fJ J hist) ∧
+    (p.forcePosDef = true → ∀ sy ∈ restrictHist p fJ J hist, 0 < dot sy.2 sy.1) := by
+  have key : ∀ sy ∈ restrictHist p fJ J hist, ∃ sy0, validJh p fJ J sy0 = true ∧
+      dot sy.2 sy.1 = dotJ fJ J sy0.1 sy0.2 ∧ 0 ≤ dotJ fJ J sy0.1 sy0.1 := by
+    intro sy hsy
+    simp only [restrictHist, List.mem_map, List.mem_filter] at hsy
+    obtain ⟨sy0, ⟨_, hv⟩, rfl⟩ := hsy
+    refine ⟨sy0, hv, ?_, ?_⟩
+    · show dot (G fJ J sy0.2) (G fJ J sy0.1) = _
+      rw [dotJ_eq, dot_comm]
+    · rw [dotJ_eq]; exact dot_self_nonneg _
+  constructor
+  · intro sy hsy
+    obtain ⟨sy0, hv, he, hs⟩ := key sy hsy
+    rw [he]
+    exact updateValid_ne_zero p _ _ _ hv hmd hs
+  · intro hfp sy hsy
+    obtain ⟨sy0, hv, he, hs⟩ := key sy hsy
+    rw [he]
+    exact updateValid_pos p _ _ _ hv hfp hmd hs
+
+/-! ### the scaling of the masked variant, without the side hypothesis (audit: `hr`) -/
+
+/-- `⟨s,y⟩_J / ⟨y,y⟩_J` of a slot. -/
+def ratioJ (fJ : Bool) (J : List Nat) (c : Slot α) : α :=
+  dot (G fJ J c.s) (G fJ J c.y) / dot (G fJ J c.y) (G fJ J c.y)
+
+theorem mGamma_step_valid (p : Params α) (fJ : Bool) (J : List Nat) (c : Slot α)
+    (cs : List (Slot α)) (γ : α) (hγ : γ < 0) (hc : validJ p fJ J c = true) :
+    mGamma p fJ J (c :: cs) γ = mGamma p fJ J cs (ratioJ fJ J c) := by
+  simp only [mGamma, hc, Bool.not_true, Bool.false_eq_true, if_false, hγ, if_true]
+  congr 1
+  simp [ratioJ, dotJ_eq, div_eq_mul_inv, mul_comm]
+
+/-- What the first loop of `apply_masked_impl` really computes when no non-negative step size is
+    given: it walks the pairs newest first and takes `⟨s,y⟩_J/⟨y,y⟩_J` of the first pair that is
+    valid on `J` **and whose ratio is non-negative** (the code uses `γ < 0` as its "not yet set"
+    marker, so a valid pair with a negative ratio — possible only without `force_pos_def` — is
+    used in the recursion but its ratio is replaced by that of an older pair). -/
+theorem mGamma_first_nonneg (p : Params α) (fJ : Bool) (J : List Nat) (pre post : List (Slot α))
+    (c : Slot α) (γ : α) (hγ : γ < 0)
+    (hpre : ∀ c' ∈ pre, validJ p fJ J c' = false ∨ ratioJ fJ J c' < 0)
+    (hc : validJ p fJ J c = true) (hr : 0 ≤ ratioJ fJ J c) :
+    mGamma p fJ J (pre ++ c :: post) γ = ratioJ fJ J c := by
+  induction pre generalizing γ with
+  | nil =>
+    rw [List.nil_append, mGamma_step_valid p fJ J c post γ hγ hc]
+    exact mGamma_of_nonneg _ _ _ _ _ (not_lt.mpr hr)
+  | cons c' pre ih =>
+    have hpre' : ∀ c'' ∈ pre, validJ p fJ J c'' = false ∨ ratioJ fJ J c'' < 0 :=
+      fun c'' h => hpre c'' (by simp [h])
+    rw [List.cons_append]
+    by_cases hv : validJ p fJ J c' = true
+    · have hneg : ratioJ fJ J c' < 0 := by
+        rcases hpre c' (by simp) with h | h
+        · rw [hv] at h; exact absurd h (by simp)
+        · exact h
+      rw [mGamma_step_valid p fJ J c' _ γ hγ hv]
+      exact ih _ hneg hpre'
+    · have hv' : validJ p fJ J c' = false := by simpa using hv
+      simp only [mGamma, hv', Bool.not_false, if_true]
+      exact ih γ hγ hpre'
+
+/-- … and if there is no such pair the scaling stays negative and the call fails. -/
+theorem mGamma_all_neg (p : Params α) (fJ : Bool) (J : List Nat) (cs : List (Slot α)) (γ : α)
+    (hγ : γ < 0) (h : ∀ c ∈ cs, validJ p fJ J c = false ∨ ratioJ fJ J c < 0) :
+    mGamma p fJ J cs γ < 0 := by
+  induction cs generalizing γ with
+  | nil => exact hγ
+  | cons c cs ih =>
+    have h' : ∀ c' ∈ cs, validJ p fJ J c' = false ∨ ratioJ fJ J c' < 0 :=
+      fun c' hc' => h c' (by simp [hc'])
+    by_cases hv : validJ p fJ J c = true
+    · have hneg : ratioJ fJ J c < 0 := by
+        rcases h c (by simp) with h1 | h1
+        · rw [hv] at h1; exact absurd h1 (by simp)
+        · exact h1
+      rw [mGamma_step_valid p fJ J c _ γ hγ hv]
+      exact ih _ hneg h'
+    · have hv' : validJ p fJ J c = false := by simpa using hv
+      simp only [mGamma, hv', Bool.not_false, if_true]
+      exact ih γ hγ h'
+
+/-- With `force_pos_def` (and `min_div_fac ≥ 0`) a pair valid on `J` has a non-negative ratio. -/
+theorem ratioJ_nonneg_of_valid (p : Params α) (hfp : p.forcePosDef = true) (hmd : 0 ≤ p.minDivFac)
+    (fJ : Bool) (J : List Nat) (c : Slot α) (hc : validJ p fJ J c = true) : 0 ≤ ratioJ fJ J c := by
+  have hs : 0 ≤ dotJ fJ J c.s c.s := by rw [dotJ_eq]; exact dot_self_nonneg _
+  have := updateValid_pos p _ _ _ hc hfp hmd hs
+  rw [dotJ_eq] at this
+  exact div_nonneg this.le (dot_self_nonneg _)
+
+/-- **The documented initial scaling of the masked variant, no side hypothesis**: with
+    `force_pos_def` and `min_div_fac ≥ 0`, when no non-negative step size is supplied (curvature
+    policy or `γ < 0`), the scaling is `⟨s,y⟩_J/⟨y,y⟩_J` of the newest pair valid on `J`. -/
+theorem maskedGamma_newest_valid_pd (p : Params α) (hfp : p.forcePosDef = true)
+    (hmd : 0 ≤ p.minDivFac) (st : State α) (q : Vec α) (γ : α) (J : List Nat)
+    (older newer : List (Slot α)) (c : Slot α) (hsplit : st.pairs = older ++ c :: newer)
+    (hγ : (if p.curvature then (-1 : α) else γ) < 0)
+    (hnewer : ∀ c' ∈ newer, validJ p (q.length == J.length) J c' = false)
+    (hc : validJ p (q.length == J.length) J c = true) :
+    maskedGamma p st q γ J = ratioJ (q.length == J.length) J c :=
+  maskedGamma_newest_valid p st q γ J older newer c hsplit hγ hnewer hc
+    (ratioJ_nonneg_of_valid p hfp hmd _ J c hc)
+
+/-- **General form (no `force_pos_def`)**: the scaling is the ratio of the newest pair that is
+    valid on `J` *and has a non-negative ratio*; newer valid pairs with a negative ratio are passed
+    over.  (For such a history `apply` on the full index set uses the negative ratio of the newest
+    pair, so with `force_pos_def = false` the masked variant on `J = {0,…,n−1}` and `apply` differ:
+    known-findings `C09-apply_masked-negative-curvature-scaling-from-older-pair`.) -/
+theorem maskedGamma_first_nonneg (p : Params α) (st : State α) (q : Vec α) (γ : α) (J : List Nat)
+    (older newer : List (Slot α)) (c : Slot α) (hsplit : st.pairs = older ++ c :: newer)
+    (hγ : (if p.curvature then (-1 : α) else γ) < 0)
+    (hnewer : ∀ c' ∈ newer, validJ p (q.length == J.length) J c' = false ∨
+      ratioJ (q.length == J.length) J c' < 0)
+    (hc : validJ p (q.length == J.length) J c = true)
+    (hr : 0 ≤ ratioJ (q.length == J.length) J c) :
+    maskedGamma p st q γ J = ratioJ (q.length == J.length) J c := by
+  simp only [maskedGamma, hsplit, List.reverse_append, List.reverse_cons, List.append_assoc,
+    List.singleton_append]
+  exact mGamma_first_nonneg _ _ _ _ _ _ _ hγ (fun c' h => hnewer c' (List.mem_reverse.mp h)) hc hr
+
+/-- If every pair is invalid on `J` or has a negative ratio, the call fails
+    (`applyMasked_eq_restricted`: result flag `decide (¬ maskedGamma < 0)`). -/
+theorem maskedGamma_neg (p : Params α) (st : State α) (q : Vec α) (γ : α) (J : List Nat)
+    (hγ : (if p.curvature then (-1 : α) else γ) < 0)
+    (h : ∀ c ∈ st.pairs, validJ p (q.length == J.length) J c = false ∨
+      ratioJ (q.length == J.length) J c < 0) :
+    maskedGamma p st q γ J < 0 :=
+  mGamma_all_neg _ _ _ _ _ hγ fun c hc => h c (List.mem_reverse.mp hc)
+
+section reach_examples
+
+local instance instRealLikeRat' : RealLike ℚ := ⟨id, fun _ => false, fun _ => true⟩
+local instance instPowLikeRat' : PowLike ℚ := ⟨fun x _ => x⟩
+local instance instHasNaNRat' : HasNaN ℚ := ⟨0⟩
+
+/-- memory 2, dimension 2, defaults otherwise: `min_div_fac = min_abs_s = 0`, CBFGS off,
+    `force_pos_def`, curvature-based step size. -/
+def pEx : Params ℚ := ⟨2, 0, 0, 1, 0, true, true⟩
+def st0Ex : State ℚ := ⟨2, [⟨[0, 0], [0, 0], 0⟩, ⟨[0, 0], [0, 0], 0⟩], [0, 0], 0, false⟩
+
+/-- Three stored pairs in a ring of two slots (the third, a *forced* pair of positive curvature,
+    overwrites slot 0: wrap-around), an `apply` in between, one pair offered and rejected
+    (`⟨y,s⟩ = −1`), and a `scale_y`. -/
+def opsEx : List (Op ℚ) :=
+  [.updateSy [1, 1] [1, 2] 0 false, .updateSy [1, 0] [2, -1] 0 false, .apply [1, 0] (-1),
+   .updateSy [1, 0] [-1, 5] 0 false, .updateSy [0, 1] [1, 3] 0 true, .scaleY 2]
+
+theorem resize_ex : resize pEx 2 = some st0Ex := rfl
+
+/-- `Good` is satisfiable (here: the freshly constructed object). -/
+example : Good pEx st0Ex := (resize_goodC pEx 2 st0Ex resize_ex).1.1
+
+theorem nEx : (opsEx.foldl (step pEx) st0Ex).n = 2 := by decide +kernel
+
+theorem runPos_ex : RunPos pEx st0Ex opsEx := by
+  simp only [RunPos, opsEx, OpPos, step, updateSy_n, apply_n]
+  simp [st0Ex, dot_cons]
+
+/-- The reached state is not empty, and holds the two newest stored pairs (`y` scaled by 2). -/
+theorem reached_ex :
+    (opsEx.foldl (step pEx) st0Ex).isEmpty = false ∧
+    opsEx.foldl (specStep pEx) [] = [([1, 0], [4, -2]), ([0, 1], [2, 6])] := by
+  constructor
+  · decide +kernel
+  · simp [opsEx, specStep, pEx, updateValid, lbfgsUpdateValid, cbfgsEnabled, lastN, dot_cons,
+      sqNorm_eq_dot, smul_cons]
+    norm_num
+
+/-- `Good` / `GoodC` on a non-trivial reached state (ring wrapped, `ρ` rescaled by `scale_y`). -/
+example : Good pEx (opsEx.foldl (step pEx) st0Ex) ∧ CurvOK (opsEx.foldl (step pEx) st0Ex) := by
+  have h := (run_goodC pEx (by decide) (le_refl _) opsEx st0Ex (resize_goodC pEx 2 st0Ex resize_ex).1
+    runPos_ex.runOK).1
+  exact ⟨h.1, h.2.1⟩
+
+/-- All hypotheses of `reachable_apply_dense` and `reachable_apply_posdef` at once, on a run with
+    wrap-around, a forced pair, a rejected pair, an `apply` and a `scale_y`: the result of `apply`
+    on `q = (1, 0)` is the dense BFGS matrix of the two newest pairs applied to `q`, which is
+    symmetric, satisfies the secant equation `H·(2,6) = (0,1)`, and `⟨q, H q⟩ > 0`. -/
+example :
+    (apply pEx (opsEx.foldl (step pEx) st0Ex) [1, 0] (-1)).2.1
+      = H (applyGamma pEx (opsEx.foldl (step pEx) st0Ex) (-1))
+          [([1, 0], [4, -2]), ([0, 1], [2, 6])] [1, 0] ∧
+    (∀ γ0 : ℚ, H γ0 [([1, 0], [4, -2]), ([0, 1], [2, 6])] [2, 6] = [0, 1]) ∧
+    0 < dot [1, 0] (apply pEx (opsEx.foldl (step pEx) st0Ex) [1, 0] (-1)).2.1 := by
+  have h := reachable_apply_dense pEx (le_refl _) 2 st0Ex resize_ex opsEx runPos_ex.runOK [1, 0] (-1)
+    reached_ex.1
+  have hp := reachable_apply_posdef pEx rfl (le_refl _) 2 st0Ex resize_ex opsEx runPos_ex [1, 0] (-1)
+    reached_ex.1 (Or.inl rfl) (by rw [nEx]; rfl) (by rw [nEx]; simp)
+  rw [reached_ex.2] at h
+  refine ⟨h.2.2.1, ?_, hp.2⟩
+  obtain ⟨older, s, y, he, _, hs⟩ := h.2.2.2.2.2
+  have : older ++ [(s, y)] = [([1, 0], [4, -2])] ++ [([0, 1], [2, 6])] := he.symm
+  obtain ⟨_, h2⟩ := List.append_inj' this rfl
+  simp only [List.cons.injEq, Prod.mk.injEq, and_true] at h2
+  obtain ⟨rfl, rfl⟩ := h2
+  exact hs
+
+/-- The concrete numbers: `γ₀ = sᵀy/yᵀy = 6/40`, and the dense matrix applied to `(1,0)`. -/
+example : H (3 / 20 : ℚ) [([1, 0], [4, -2]), ([0, 1], [2, 6])] [1, 0] = [23 / 80, -23 / 240] := by
+  simp [H, Hrev, dot_cons]; norm_num
+
+/-- The excluded point on the same object: a forced pair with `⟨y,s⟩ = 0` is stored and breaks the
+    invariant (C++: `ρ = inf`, `apply` → NaN). -/
+example : (updateSy pEx st0Ex [1, 0] [0, 1] 0 true).2 = true ∧
+    ¬ CurvOK (updateSy pEx st0Ex [1, 0] [0, 1] 0 true).1 :=
+  forced_zero_curvature_breaks pEx st0Ex (resize_goodC pEx 2 st0Ex resize_ex).1.1 _ _ _
+    (by simp [dot_cons])
+
+/-- `maskedGamma_newest_valid_pd` is not vacuous: on the one-pair state, `J = {0}`, the pair
+    `s = (1,1), y = (1,2)` is valid on `J` and the scaling is `s₀y₀/y₀² = 1`. -/
+example : validJ pEx false [0] (⟨[1, 1], [1, 2], 1 / 3⟩ : Slot ℚ) = true ∧
+    ratioJ false [0] (⟨[1, 1], [1, 2], 1 / 3⟩ : Slot ℚ) = 1 := by
+  constructor
+  · simp [validJ, updateValid, lbfgsUpdateValid, cbfgsEnabled, pEx, dotJ, vget]
+  · simp [ratioJ, G, vget, dot_cons]
+
+/-- A pair valid on `J` with a *negative* ratio exists without `force_pos_def` — the case in which
+    `maskedGamma_first_nonneg` differs from "newest valid pair". -/
+example : validJ { pEx with forcePosDef := false } true [0, 1] (⟨[1, 0], [-2, 1], -1 / 2⟩ : Slot ℚ) = true ∧
+    ratioJ true [0, 1] (⟨[1, 0], [-2, 1], -1 / 2⟩ : Slot ℚ) < 0 := by
+  constructor
+  · simp [validJ, updateValid, lbfgsUpdateValid, cbfgsEnabled, pEx, dotJ, dot_cons]
+  · simp [ratioJ, G, dot_cons]; norm_num
+
+end reach_examples
 
 end Alpaqa.Props.C09
